@@ -75,6 +75,34 @@ pub fn c03(out: &mut dyn Write, tier: &str, rng: &mut Rng, st: &mut Stats) {
             st.hit("op.ite");
         }
     }
+    // operands that live in the environment (hash-consed), where one operand IS a sub-diagram of the other
+    // (the same shared node), is reached twice, or is the other operand itself: pointer-identity short-cuts
+    let ni = if exhaustive { 60000 } else { 4000 };
+    for i in 0..ni {
+        let (va, _) = &embs[i % embs.len()];
+        let a = crate::env::intern(&env, &from_tt(rng.below(256), va));
+        let sub = |x: &B, rng: &mut Rng| -> B {
+            // a random descendant of x (possibly x itself)
+            let mut cur = Rc::clone(x);
+            loop {
+                let next = match cur.as_ref() { BDD::Choice(t, _, f) if rng.chance(2, 3) => if rng.chance(1, 2) { Rc::clone(t) } else { Rc::clone(f) }, _ => break };
+                cur = next;
+            }
+            cur
+        };
+        let b = match rng.below(4) { 0 => Rc::clone(&a), 1 | 2 => sub(&a, rng), _ => crate::env::intern(&env, &from_tt(rng.below(256), va)) };
+        let op = *rng.pick(&BIN_OPS);
+        let (x, y) = if rng.chance(1, 2) { (Rc::clone(&a), Rc::clone(&b)) } else { (Rc::clone(&b), Rc::clone(&a)) };
+        let r = bin(&env, op, Rc::clone(&x), Rc::clone(&y));
+        writeln!(out, "C03|bin|{}|{}|{}|{}|{};{}", op, show(&x), show(&y), show(&r), show(&x), show(&y)).unwrap();
+        st.hit("op.shared");
+        if i % 4 == 0 {
+            let c = sub(&a, rng);
+            let r = env.ite(Rc::clone(&x), Rc::clone(&y), Rc::clone(&c));
+            writeln!(out, "C03|ite|{}|{}|{}|{}|{};{};{}", show(&x), show(&y), show(&c), show(&r), show(&x), show(&y), show(&c)).unwrap();
+            st.hit("op.ite.shared");
+        }
+    }
     // larger random operands: 5 variables each over ids 0..11
     let n = if exhaustive { 40000 } else { 2000 };
     for _ in 0..n {
@@ -437,8 +465,11 @@ pub fn c04(out: &mut dyn Write, tier: &str, rng: &mut Rng, st: &mut Stats) {
     for a in 0..7 { for b in 0..7 { lists.push(vec![a, b]); } }
     for a in 0..7 { for b in 0..7 { for c in 0..7 { lists.push(vec![a, b, c]); } } }
     let thorough = tier == "thorough";
+    // operands alternate between plain values (not built by the environment) and the environment's own shared nodes
+    let mut flip = false;
     let mut emit = |tt: u64, vs: &Vec<usize>, q: &str, st: &mut Stats| {
-        let f = from_tt(tt, &fvars);
+        flip = !flip;
+        let f = if flip { from_tt(tt, &fvars) } else { crate::env::intern(&env, &from_tt(tt, &fvars)) };
         let r = if q == "exists" { env.exists(vs.clone(), Rc::clone(&f)) } else { env.all(vs.clone(), Rc::clone(&f)) };
         writeln!(out, "C04|{}|{}|{}|{}", q, show_nats(vs), show(&f), show(&r)).unwrap();
         st.hit(&format!("q.{}.len{}", q, vs.len()));
@@ -460,6 +491,7 @@ pub fn c04(out: &mut dyn Write, tier: &str, rng: &mut Rng, st: &mut Stats) {
     for _ in 0..n {
         let vars = rand_vars(rng, 5, 10);
         let f = from_tt(rng.next() & 0xFFFF_FFFF, &vars);
+        let f = if rng.chance(1, 2) { crate::env::intern(&env, &f) } else { f };
         let v = rng.below(11) as usize;
         let r = env.exists_impl(&v, Rc::clone(&f));
         writeln!(out, "C04|existsimpl|{}|{}|{}", v, show(&f), show(&r)).unwrap();
@@ -478,12 +510,14 @@ pub fn c05(out: &mut dyn Write, tier: &str, rng: &mut Rng, st: &mut Stats) {
     let n = if thorough { 150000 } else { 8000 };
     let pools: Vec<Vec<usize>> = vec![vec![0, 1, 2], vec![1, 4, 9], vec![0, 2, 4], vec![1, 2, 3]];
     let operand = |rng: &mut Rng| -> B {
-        match rng.below(10) {
+        let b = match rng.below(10) {
             0 => from_tt(0, &[]),
             1 => from_tt(1, &[]),
             2 => { let v = rng.below(5) as usize; from_tt(2, &[v]) }
             _ => { let p = rng.pick(&pools).clone(); from_tt(rng.below(256), &p) }
-        }
+        };
+        // half of the operands are the environment's own shared nodes
+        if rng.chance(1, 2) { crate::env::intern(&env, &b) } else { b }
     };
     for _ in 0..n {
         let len = rng.below(6) as usize;
@@ -540,7 +574,9 @@ fn unary_functions(tier: &str, rng: &mut Rng) -> Vec<B> {
 
 pub fn c07(out: &mut dyn Write, tier: &str, rng: &mut Rng, st: &mut Stats) {
     let env: BDDEnv<usize> = BDDEnv::new();
-    for f in unary_functions(tier, rng) {
+    for (i, f) in unary_functions(tier, rng).into_iter().enumerate() {
+        // every other operand is the environment's own shared node instead of a plain value
+        let f = if i % 2 == 1 { crate::env::intern(&env, &f) } else { f };
         let r = env.model(Rc::clone(&f));
         writeln!(out, "C07|model|{}|{}", show(&f), show(&r)).unwrap();
         st.hit(if r.is_false() { "model.false" } else { "model.cube" });
@@ -557,7 +593,8 @@ pub fn c07(out: &mut dyn Write, tier: &str, rng: &mut Rng, st: &mut Stats) {
 
 pub fn c20(out: &mut dyn Write, tier: &str, rng: &mut Rng, st: &mut Stats) {
     let env: BDDEnv<usize> = BDDEnv::new();
-    for f in unary_functions(tier, rng) {
+    for (i, f) in unary_functions(tier, rng).into_iter().enumerate() {
+        let f = if i % 2 == 1 { crate::env::intern(&env, &f) } else { f };
         for flt in [TruthTableEntry::True, TruthTableEntry::False, TruthTableEntry::Any] {
             let r = env.retain_choice_bottom_up(Rc::clone(&f), flt);
             writeln!(out, "C20|retain|{}|{}|{}", flt_name(flt), show(&f), show(&r)).unwrap();
